@@ -129,7 +129,8 @@ CLAIMED['C13'] = dict(
         "all inputs, and the translator refuses an _update that does anything outside its guarded block; the scalar arithmetic inside the windows "
         "(the whole new value of every log-scale - decaying gain, sign and size of the step - incl. each component of the componentwise variants "
         "and the solid-angle concentration, and the Veitch increment) is regenerated too (tools/py2coq_num.py, which follows the block's "
-        "temporaries symbolically) and proved equal to the model's over the reals. A user-supplied adaptation_decay larger than 1/log10(duration) reverses the Veitch direction: outside the theorem's premise and the quantifier.",
+        "temporaries symbolically) and proved equal to the model's over the reals; so is the Sivia-Skilling diagonal update (factor from the cumulative rate, exponent 0.5, "
+        "test against the cap; a private helper returning the factor is inlined). A user-supplied adaptation_decay larger than 1/log10(duration) reverses the Veitch direction: outside the theorem's premise and the quantifier.",
    technique="Coq proof over Reals (monotonicity of exp/ln/power, window arithmetic on Z) + vm_compute correspondence of the float instance",
    ref="DESIGN.md section 3, C13")
 CLAIMED['C14'] = dict(
@@ -143,7 +144,9 @@ CLAIMED['C14'] = dict(
    note=NUM_NOTE + "Loop time and IEEE overflow cannot be exhibited by the real-number model: explored on the real code only. Positive "
         "semidefiniteness (AdaptM_proofs.v): the second moment and covariance of the full-covariance Andrieu-Thoms proposals (global and "
         "componentwise scaling) and the recursive covariance of the eigenvector proposals stay PSD as quadratic forms along every history "
-        "(w'U'w = (1-d)w'Uw + d(df.w)^2); the real matrices are checked finite, symmetric and PSD after every update.",
+        "(w'U'w = (1-d)w'Uw + d(df.w)^2); the real matrices are checked finite, symmetric and PSD after every update. Source tie "
+        "(Props/C14_src.v): the Sivia-Skilling factor alpha**0.5 and the test alpha**0.5 * max(std) <= max_std as written in /repo today "
+        "(regenerated on every run by tools/py2coq_num.py) keep every width positive and at most the cap, and are the model's ss_update.",
    technique="Coq proof over Reals (invariants, per-step envelopes) + vm_compute correspondence + extremal-history exploration of the real code",
    ref="DESIGN.md section 3, C14")
 
